@@ -94,7 +94,7 @@ theorem Frame.parse (s : State) (b : Blk) : Frame s (parse s b).1 := by
   · have := Frame.materialize s (s.getBlock b.id)
     split <;> simp_all
 
-theorem Frame.build (s : State) (n : Nat) : Frame s (build s n).1 := by
+theorem Frame.build (s : State) (n : Nat) (c : Option Nat) : Frame s (build s n c).1 := by
   unfold HyperModel.Snow.build
   dsimp only
   split
@@ -104,24 +104,28 @@ theorem Frame.build (s : State) (n : Nat) : Frame s (build s n).1 := by
     · exact ((Frame.of_eq (s := s) (s' := State.emit s _) rfl rfl).trans
         (Frame.alloc _ _)).trans (Frame.of_eq rfl rfl)
 
-theorem Frame.verify (s : State) (h : Nat) : Frame s (verify s h).1 := by
+theorem Frame.verify (s : State) (h : Nat) (c : Option Nat) : Frame s (verify s h c).1 := by
   unfold HyperModel.Snow.verify
   dsimp only
   split
   · exact Frame.of_eq rfl rfl
   · split
-    · exact Frame.of_eq rfl rfl
+    · split
+      · exact Frame.of_eq rfl rfl
+      · exact Frame.refl s
     · rename_i hnv
       split
       · exact Frame.refl s
       · split
         · exact Frame.refl s
         · split
-          · exact Frame.of_eq rfl rfl
-          · refine Frame.of_objs h rfl ?_ ?_ ?_
-            · intro j hj; simp [hj]
-            · simp
-            · intro hv; simp_all
+          · exact Frame.refl s
+          · split
+            · exact Frame.of_eq rfl rfl
+            · refine Frame.of_objs h rfl ?_ ?_ ?_
+              · intro j hj; simp [hj]
+              · simp
+              · intro hv; simp_all
 
 theorem Frame.accept (s : State) (h : Nat) : Frame s (accept s h).1 := by
   unfold HyperModel.Snow.accept
@@ -296,7 +300,7 @@ theorem upd_err (e : Eng) (s : State) (op : Op) (w : String) : e.upd s op (.err 
   cases op <;> rfl
 
 /-- `pre` for `verify` spelled out -/
-theorem pre_verify {s : State} {e : Eng} {h : Nat} (hp : pre s e (.verify h) = true) :
+theorem pre_verify {s : State} {e : Eng} {h : Nat} {c : Option Nat} (hp : pre s e (.verify h c) = true) :
     h < s.nobj ∧ h ∉ e.processing ∧ (s.obj h).blk.id ∉ e.decided ∧ (s.obj h).blk.id ∉ e.procIds s := by
   simp only [pre, Bool.and_eq_true, Bool.not_eq_true', decide_eq_true_eq] at hp
   obtain ⟨⟨⟨⟨a, b⟩, c⟩, d⟩, _⟩ := hp
@@ -305,11 +309,11 @@ theorem pre_verify {s : State} {e : Eng} {h : Nat} (hp : pre s e (.verify h) = t
   · intro hc; simp [List.contains_iff_mem, hc] at c
   · intro hc; simp [List.contains_iff_mem, hc] at d
 
-theorem Link.verify {g s e} (hl : Link g s e) (hh : Heap g s) (h : Nat)
-    (hp : pre s e (.verify h) = true) :
-    Link g (verify s h).1 (e.upd s (.verify h) (verify s h).2) := by
+theorem Link.verify {g s e} (hl : Link g s e) (hh : Heap g s) (h : Nat) (c : Option Nat)
+    (hp : pre s e (.verify h c) = true) :
+    Link g (verify s h c).1 (e.upd s (.verify h c) (verify s h c).2) := by
   obtain ⟨hlt, hnp, hnd, hnpi⟩ := pre_verify hp
-  have hfr := Frame.verify s h
+  have hfr := Frame.verify s h c
   have hpid := procIds_frame (e := e) hfr (fun j hj => (hl.proc j hj).1)
   have hblk := hfr.blk h hlt
   have hpendblk := pend_blk_frame hfr s.pend (fun j hj => (hh.queue j (mem_pend hj)).1)
@@ -321,30 +325,33 @@ theorem Link.verify {g s e} (hl : Link g s e) (hh : Heap g s) (h : Nat)
   simp only [hh.ready, Bool.not_true, Bool.false_eq_true, if_false]
   split
   next hv =>
-    -- already verified (built block / second object): vacuous
-    intro hfr hpid hblk hpendblk hlablk hprocf
-    have hup : e.upd s (.verify h) .ok = { e with processing := e.processing ++ [h] } := by
-      simp [Eng.upd, hh.ready, hv]
-    rw [hup]
-    refine ⟨?_, hl.acc, hl.nacc, hl.nver, hl.verifs, hl.nrej, hl.npre, hl.chain, hl.la, ?_, ?_,
-      hl.accDec, hl.rejDec, hl.disj⟩
-    · intro j hj
-      rcases List.mem_append.mp hj with hj | hj
-      · exact hl.proc j hj
-      · simp only [List.mem_singleton] at hj; subst hj; exact ⟨hlt, hv⟩
-    · show ((e.processing ++ [h]).map _).Nodup
-      rw [List.map_append, List.nodup_append]
-      refine ⟨hl.nodup, by simp, ?_⟩
-      intro a ha b hb
-      simp only [List.map_cons, List.map_nil, List.mem_singleton] at hb
-      subst hb
-      intro hc; subst hc; exact hnpi ha
-    · intro id hid
-      have : id ∈ e.procIds s ∨ id = (s.obj h).blk.id := by
-        simpa [Eng.procIds, List.map_append] using hid
-      rcases this with h1 | h1
-      · exact hl.fresh id h1
-      · subst h1; exact hnd
+    split
+    next =>
+      -- already verified (built block / second object): vacuous
+      intro hfr hpid hblk hpendblk hlablk hprocf
+      have hup : e.upd s (.verify h c) .ok = { e with processing := e.processing ++ [h] } := by
+        simp [Eng.upd, hh.ready, hv]
+      rw [hup]
+      refine ⟨?_, hl.acc, hl.nacc, hl.nver, hl.verifs, hl.nrej, hl.npre, hl.chain, hl.la, ?_, ?_,
+        hl.accDec, hl.rejDec, hl.disj⟩
+      · intro j hj
+        rcases List.mem_append.mp hj with hj | hj
+        · exact hl.proc j hj
+        · simp only [List.mem_singleton] at hj; subst hj; exact ⟨hlt, hv⟩
+      · show ((e.processing ++ [h]).map _).Nodup
+        rw [List.map_append, List.nodup_append]
+        refine ⟨hl.nodup, by simp, ?_⟩
+        intro a ha b hb
+        simp only [List.map_cons, List.map_nil, List.mem_singleton] at hb
+        subst hb
+        intro hc; subst hc; exact hnpi ha
+      · intro id hid
+        have : id ∈ e.procIds s ∨ id = (s.obj h).blk.id := by
+          simpa [Eng.procIds, List.map_append] using hid
+        rcases this with h1 | h1
+        · exact hl.fresh id h1
+        · subst h1; exact hnd
+    next => intro _ _ _ _ _ _; rw [upd_err]; exact hl
   next hnv =>
     split
     next => intro _ _ _ _ _ _; rw [upd_err]; exact hl
@@ -353,71 +360,74 @@ theorem Link.verify {g s e} (hl : Link g s e) (hh : Heap g s) (h : Nat)
       next => intro _ _ _ _ _ _; rw [upd_err]; exact hl
       next hpv =>
         split
-        next hnone =>
-          -- inner verification failed
-          intro hfr _ _ _ _ _
-          rw [upd_err]
-          exact hl.passive hh hfr rfl rfl rfl [_] rfl (by
-            intro x hx; simp only [List.mem_singleton] at hx; subst hx; rw [hnone]; rfl)
-        next out hout =>
-          intro hfr hpid hblk hpendblk hlablk hprocf
-          have hv : (s.obj h).verified = false := by simpa using hnv
-          have hup : e.upd s (.verify h) .ok =
-              { e with processing := e.processing ++ [h], verifs := e.verifs ++ [(s.obj h).blk] } := by
-            simp [Eng.upd, hh.ready, hv]
-          rw [hup]
-          refine ⟨?_, ?_, ?_, ?_, ?_, ?_, ?_, hl.chain, ?_, ?_, ?_, hl.accDec, hl.rejDec, hl.disj⟩
-          · intro j hj
-            rcases List.mem_append.mp hj with hj | hj
-            · exact hprocf j hj
-            · simp only [List.mem_singleton] at hj; subst hj
-              exact ⟨hlt, by simp⟩
-          · show acceptLog (s.log ++ [_] ++ [_]) ++ _ = _
-            have : State.pend (((s.emit (.cVerify p.out (s.obj h).blk (chainVerify p.out (s.obj h).blk))).setObj h
-                { s.obj h with out := some out, verified := true }).emit (.nVerified out) |>.vbSet (s.obj h).blk.id h) = s.pend := rfl
-            rw [this, hpendblk]
-            simp only [acceptLog, List.filterMap_append, hout]
-            simpa [acceptLog] using hl.acc
-          · show nAcc (s.log ++ [_] ++ [_]) = acc0 g :: acceptRes (s.log ++ [_] ++ [_])
-            simp only [nAcc, acceptRes, List.filterMap_append, hout]
-            simpa [nAcc, acceptRes] using hl.nacc
-          · show nVer (s.log ++ [_] ++ [_]) = verifyRes (s.log ++ [_] ++ [_])
-            simp only [nVer, verifyRes, List.filterMap_append, hout]
-            simpa [nVer, verifyRes] using hl.nver
-          · show (verifyRes (s.log ++ [_] ++ [_])).map (·.blk) = _
-            simp only [verifyRes, List.filterMap_append, hout]
-            have := hl.verifs
-            simp only [verifyRes] at this
-            simp [this, chainVerify_blk hout]
-          · show nRej (s.log ++ [_] ++ [_]) = _
-            simp only [nRej, List.filterMap_append, hout]
-            simpa [nRej] using hl.nrej
-          · show nPre (s.log ++ [_] ++ [_]) = _
-            simp only [nPre, List.filterMap_append, hout]
-            simpa [nPre] using hl.npre
-          · exact ⟨by rw [← hl.la.1]; exact hlablk, hl.la.2⟩
-          · show ((e.processing ++ [h]).map _).Nodup
-            rw [List.map_append, List.nodup_append]
-            refine ⟨by rw [show e.processing.map _ = e.procIds _ from rfl, hpid]; exact hl.nodup, by simp, ?_⟩
-            intro a ha b hb
-            simp only [List.map_cons, List.map_nil, List.mem_singleton] at hb
-            subst hb
-            rw [show e.processing.map _ = e.procIds _ from rfl, hpid] at ha
-            rw [hblk]
-            intro hc; subst hc; exact hnpi ha
-          · intro id hid
-            have hid' : id ∈ e.processing.map (fun q => ((((s.emit (.cVerify p.out (s.obj h).blk (chainVerify p.out (s.obj h).blk))).setObj h
-                { s.obj h with out := some out, verified := true }).emit (.nVerified out) |>.vbSet (s.obj h).blk.id h).obj q).blk.id) ∨
-                id = (s.obj h).blk.id := by
-              have : id ∈ (e.processing ++ [h]).map _ := hid
-              rw [List.map_append, List.mem_append] at this
-              rcases this with t | t
-              · exact Or.inl t
-              · right; simp only [List.map_cons, List.map_nil, List.mem_singleton] at t; rw [t, hblk]
-            rcases hid' with h1 | h1
-            · rw [show e.processing.map _ = e.procIds _ from rfl, hpid] at h1
-              exact hl.fresh id h1
-            · subst h1; exact hnd
+        next => intro _ _ _ _ _ _; rw [upd_err]; exact hl
+        next =>
+          split
+          next hnone =>
+            -- inner verification failed
+            intro hfr _ _ _ _ _
+            rw [upd_err]
+            exact hl.passive hh hfr rfl rfl rfl [_] rfl (by
+              intro x hx; simp only [List.mem_singleton] at hx; subst hx; rw [hnone]; rfl)
+          next out hout =>
+            intro hfr hpid hblk hpendblk hlablk hprocf
+            have hv : (s.obj h).verified = false := by simpa using hnv
+            have hup : e.upd s (.verify h c) .ok =
+                { e with processing := e.processing ++ [h], verifs := e.verifs ++ [(s.obj h).blk] } := by
+              simp [Eng.upd, hh.ready, hv]
+            rw [hup]
+            refine ⟨?_, ?_, ?_, ?_, ?_, ?_, ?_, hl.chain, ?_, ?_, ?_, hl.accDec, hl.rejDec, hl.disj⟩
+            · intro j hj
+              rcases List.mem_append.mp hj with hj | hj
+              · exact hprocf j hj
+              · simp only [List.mem_singleton] at hj; subst hj
+                exact ⟨hlt, by simp⟩
+            · show acceptLog (s.log ++ [_] ++ [_]) ++ _ = _
+              have : State.pend (((s.emit (.cVerify p.out (s.obj h).blk (chainVerify p.out (s.obj h).blk))).setObj h
+                  { s.obj h with out := some out, verified := true }).emit (.nVerified out) |>.vbSet (s.obj h).blk.id h) = s.pend := rfl
+              rw [this, hpendblk]
+              simp only [acceptLog, List.filterMap_append, hout]
+              simpa [acceptLog] using hl.acc
+            · show nAcc (s.log ++ [_] ++ [_]) = acc0 g :: acceptRes (s.log ++ [_] ++ [_])
+              simp only [nAcc, acceptRes, List.filterMap_append, hout]
+              simpa [nAcc, acceptRes] using hl.nacc
+            · show nVer (s.log ++ [_] ++ [_]) = verifyRes (s.log ++ [_] ++ [_])
+              simp only [nVer, verifyRes, List.filterMap_append, hout]
+              simpa [nVer, verifyRes] using hl.nver
+            · show (verifyRes (s.log ++ [_] ++ [_])).map (·.blk) = _
+              simp only [verifyRes, List.filterMap_append, hout]
+              have := hl.verifs
+              simp only [verifyRes] at this
+              simp [this, chainVerify_blk hout]
+            · show nRej (s.log ++ [_] ++ [_]) = _
+              simp only [nRej, List.filterMap_append, hout]
+              simpa [nRej] using hl.nrej
+            · show nPre (s.log ++ [_] ++ [_]) = _
+              simp only [nPre, List.filterMap_append, hout]
+              simpa [nPre] using hl.npre
+            · exact ⟨by rw [← hl.la.1]; exact hlablk, hl.la.2⟩
+            · show ((e.processing ++ [h]).map _).Nodup
+              rw [List.map_append, List.nodup_append]
+              refine ⟨by rw [show e.processing.map _ = e.procIds _ from rfl, hpid]; exact hl.nodup, by simp, ?_⟩
+              intro a ha b hb
+              simp only [List.map_cons, List.map_nil, List.mem_singleton] at hb
+              subst hb
+              rw [show e.processing.map _ = e.procIds _ from rfl, hpid] at ha
+              rw [hblk]
+              intro hc; subst hc; exact hnpi ha
+            · intro id hid
+              have hid' : id ∈ e.processing.map (fun q => ((((s.emit (.cVerify p.out (s.obj h).blk (chainVerify p.out (s.obj h).blk))).setObj h
+                  { s.obj h with out := some out, verified := true }).emit (.nVerified out) |>.vbSet (s.obj h).blk.id h).obj q).blk.id) ∨
+                  id = (s.obj h).blk.id := by
+                have : id ∈ (e.processing ++ [h]).map _ := hid
+                rw [List.map_append, List.mem_append] at this
+                rcases this with t | t
+                · exact Or.inl t
+                · right; simp only [List.map_cons, List.map_nil, List.mem_singleton] at t; rw [t, hblk]
+              rcases hid' with h1 | h1
+              · rw [show e.processing.map _ = e.procIds _ from rfl, hpid] at h1
+                exact hl.fresh id h1
+              · subst h1; exact hnd
 
 end HyperModel.Snow
 
@@ -640,7 +650,7 @@ theorem Passive.parse (s : State) (b : Blk) : Passive s (parse s b).1 := by
   · have := Passive.materialize s (s.getBlock b.id)
     split <;> simp_all
 
-theorem Passive.build (s : State) (n : Nat) : Passive s (build s n).1 := by
+theorem Passive.build (s : State) (n : Nat) (c : Option Nat) : Passive s (build s n c).1 := by
   unfold HyperModel.Snow.build
   dsimp only
   split
@@ -717,7 +727,7 @@ end HyperModel.Snow
 namespace HyperModel.Snow
 
 theorem upd_passive (e : Eng) (s : State) (op : Op) (r : Res)
-    (h : (match op with | .verify _ | .accept _ | .reject _ | .start _ | .finish _ _ => false | _ => true) = true) :
+    (h : (match op with | .verify _ _ | .accept _ | .reject _ | .start _ | .finish _ _ => false | _ => true) = true) :
     e.upd s op r = e := by
   cases op <;> simp at h <;> cases r <;> rfl
 
@@ -735,12 +745,12 @@ theorem Link.step {g : Blk} {y : Sys} (hl : Link g y.s y.e) (hh : Heap g y.s) (o
   split
   · rw [upd_err]; exact hl
   · cases op with
-    | build n => rw [upd_passive _ _ _ _ rfl]; exact hl.of_passive hh (Frame.build _ n) (Passive.build _ n)
+    | build n c => rw [upd_passive _ _ _ _ rfl]; exact hl.of_passive hh (Frame.build _ n c) (Passive.build _ n c)
     | parse b => rw [upd_passive _ _ _ _ rfl]; exact hl.of_passive hh (Frame.parse _ b) (Passive.parse _ b)
-    | verify h =>
+    | verify h c =>
       dsimp only
       split
-      · exact hl.verify hh h hp
+      · exact hl.verify hh h c hp
       · rw [upd_err]; exact hl
     | accept h =>
       dsimp only
